@@ -55,7 +55,24 @@ pub fn run(opts: &Opts) -> Report {
             0 | 1 => (None, None),
             2 | 3 => (None, Some(rng.below(head + 1))),
             4 => (None, Some(head + 1 + rng.below(3))),
-            5 | 6 if !own_msgs.is_empty() => (Some(rng.pick(&own_msgs).id.clone()), None),
+            5 | 6 if !own_msgs.is_empty() => {
+                // half of the time a message whose run ended only after a LATER message was posted
+                // (overlapping turns), when the history has one
+                let overlapped: Vec<&&Msg> = own_msgs
+                    .iter()
+                    .filter(|m| {
+                        let end = src_frames.iter().filter(|f| f["type"] == "continuity_run_ended" && f["message_id"].as_str() == Some(m.id.as_str())).filter_map(|f| f["seq"].as_u64()).max();
+                        let my_seq = src_frames.iter().find(|f| f["id"].as_str() == Some(m.id.as_str())).and_then(|f| f["seq"].as_u64()).unwrap_or(u64::MAX);
+                        end.map(|e| src_frames.iter().any(|f| f["type"] == "continuity_message_appended" && f["seq"].as_u64().map(|q| q > my_seq && q < e).unwrap_or(false))).unwrap_or(false)
+                    })
+                    .collect();
+                if !overlapped.is_empty() && rng.chance(1, 2) {
+                    rep.count("cut_by_message_with_overlapping_turns");
+                    (Some(rng.pick(&overlapped).id.clone()), None)
+                } else {
+                    (Some(rng.pick(&own_msgs).id.clone()), None)
+                }
+            }
             7 => {
                 // an id that exists but is not a message (or is a message of another thread), or unknown
                 let other = before.iter().filter(|f| f["type"] != "continuity_message_appended" || f["session_id"].as_str() != Some(src.as_str())).map(|f| f["id"].as_str().unwrap_or("").to_string()).collect::<Vec<_>>();
@@ -184,6 +201,20 @@ pub fn run(opts: &Opts) -> Report {
                     None => {
                         if !msgs_before_cut.is_empty() {
                             rep.oracle_failure("C10|recorded-message-missing", &format!("the lineage record names no message although the source has {} at or before seq {q}", msgs_before_cut.len()), case.clone());
+                        }
+                    }
+                }
+                // a cut requested by message id alone covers that message and the end of every run
+                // that answered it, however the turns of the source thread overlap
+                if let (Some(m), None) = (&from_message_id, from_seq) {
+                    let ends: Vec<u64> = parent_before
+                        .iter()
+                        .filter(|f| (f["type"] == "continuity_run_ended" || f["type"] == "continuity_message_appended" && f["id"].as_str() == Some(m.as_str())) && (f["type"] != "continuity_run_ended" || f["message_id"].as_str() == Some(m.as_str())))
+                        .filter_map(|f| f["seq"].as_u64())
+                        .collect();
+                    if let Some(e) = ends.iter().max() {
+                        if *q < *e {
+                            rep.oracle_failure("C10|cut-by-message-excludes-the-end-of-its-run", &format!("cut requested by message id: recorded cut {q} lies before seq {e}, the end of a run that answered the message (or the message itself)"), case.clone());
                         }
                     }
                 }
